@@ -137,6 +137,11 @@ func (sw *world) fresh(dir string) *casbin.SyncedEnforcer {
 	if sw.freshPatterns {
 		var sb strings.Builder
 		for i, u := range sw.w.Users {
+			if i == len(sw.w.Users)-1 {
+				// one user's first rule carries a pattern that does not compile: Enforce for that user reports an
+				// error every time; the calls of everybody else (and later calls of this user) must keep returning
+				fmt.Fprintf(&sb, "p, %s, /res/{id}/(/%d, read\n", u, seq)
+			}
 			for k := 0; k < 4; k++ {
 				fmt.Fprintf(&sb, "p, %s, /res/{id}/x%d_%d_%d/{id}, read\n", u, seq, i, k)
 			}
